@@ -11,6 +11,7 @@ import (
 	"syscall"
 	"testing"
 
+	"deps.dev/util/resolve"
 	"github.com/google/osv-scalibr/guidedremediation"
 	"github.com/google/osv-scalibr/guidedremediation/options"
 	"github.com/google/osv-scalibr/guidedremediation/result"
@@ -37,6 +38,7 @@ type RunSpec struct {
 	Sched    []int
 	Faults   []Fault
 	Pass     bool // no scheduler: calls go straight through (fresh, un-faulted analysis)
+	Free     bool // with Pass: free-running, no synchronisation in the stubs, no call budget (race detector run)
 	WFault   *WriteFault
 }
 
@@ -114,8 +116,11 @@ func Execute(t *testing.T, w *World, spec RunSpec) *Obs {
 	}
 
 	body := func(s *Sched) {
-		cl := &SimClient{s: s, lc: w.localClient(), order: w.VersionsOrder}
+		var cl resolve.Client = &SimClient{s: s, lc: w.localClient(), order: w.VersionsOrder}
 		vm := &SimMatcher{s: s, w: w, osv: w.osv()}
+		if spec.Free {
+			cl, vm.s = freeze(w.localClient()), nil
+		}
 		var err error
 		switch spec.Kind {
 		case "update":
